@@ -37,6 +37,13 @@
 (* waits for the reply while it still holds Casper.mu.                        *)
 (* DevCachedReadUnlocked = TRUE is authCachedMsg as written: it walks the     *)
 (* checkpoint tree before it takes Casper.mu.                                 *)
+(* CachedRollback = TRUE is a candidate repair of the recorded C11 finding     *)
+(* (a cached verification that changes the best chain requests no rollback):  *)
+(* the loop would do what AuthVerification does, send a rollback request and  *)
+(* wait for the reply. The loop then waits for the block processor while the  *)
+(* block processor may wait for room on newEpochCh, which only the loop       *)
+(* drains: TLC finds the wait cycle (NodeLocks.cachedwait.cfg) unless the     *)
+(* queue can hold every epoch announced meanwhile (NodeLocks.cachedroom.cfg). *)
 EXTENDS Naturals, Sequences, FiniteSets, TLC
 
 CONSTANTS Feeders, Verifiers, Submitters, Readers,   \* caller threads
@@ -46,7 +53,8 @@ CONSTANTS Feeders, Verifiers, Submitters, Readers,   \* caller threads
           MaxCached,    \* cached verifications replayed per epoch message
           BlockCap, RbCap, EpochCap,                  \* channel capacities
           DevHoldLockDuringRollback,
-          DevCachedReadUnlocked
+          DevCachedReadUnlocked,
+          CachedRollback
 
 VARIABLES pc,        \* [Threads -> control state]
           mu,        \* Casper.mu: the thread inside a write section, or "none"
@@ -79,9 +87,9 @@ Init == /\ pc = [t \in Threads |-> "idle"]
         /\ mu = "none" /\ mtx = "none" /\ cond = "none"
         /\ blockQ = <<>> /\ rbQ = <<>> /\ epochQ = 0
         /\ reply = [f \in Feeders |-> FALSE]
-        /\ rbReply = [v \in Verifiers |-> FALSE]
+        /\ rbReply = [v \in Verifiers \cup {CL} |-> FALSE]
         /\ cur = "none" /\ arm = "none" /\ sub = 0
-        /\ chg = [v \in Verifiers |-> FALSE]
+        /\ chg = [v \in Verifiers \cup {CL} |-> FALSE]
         /\ cached = 0
         /\ nblocks = 0 /\ nvotes = 0 /\ ntxs = 0 /\ nreads = 0 /\ nchanges = 0
 
@@ -198,7 +206,7 @@ BPReplyBlock ==
   /\ UNCHANGED <<locks, blockQ, rbQ, epochQ, rbReply, sub, chg, cached, cnt>>
 (* msg.Reply <- err on an unbuffered channel: completes only with the verifier receiving *)
 BPReplyRb ==
-  /\ At(BP, "answer") /\ arm = "rb" /\ At(cur, "v_wait")
+  /\ At(BP, "answer") /\ arm = "rb" /\ pc[cur] \in {"v_wait", "c_wait"}
   /\ rbReply' = [rbReply EXCEPT ![cur] = TRUE] /\ cur' = "none" /\ arm' = "none" /\ Goto(BP, "idle")
   /\ UNCHANGED <<locks, blockQ, rbQ, epochQ, reply, sub, chg, cached, cnt>>
 
@@ -219,9 +227,18 @@ CLReadTree ==      \* c.tree.nodeByHash(...) without the lock
 CLAcq ==
   /\ At(CL, "c_lock") /\ mu = "none" /\ mu' = CL /\ Goto(CL, "c_work")
   /\ UNCHANGED <<mtx, cond, chans, bpv, chg, cached, cnt>>
-CLRel ==
-  /\ At(CL, "c_work") /\ mu = CL /\ mu' = "none" /\ Goto(CL, "c_pick")
-  /\ UNCHANGED <<mtx, cond, chans, bpv, chg, cached, cnt>>
+CLRel(changed) ==
+  /\ At(CL, "c_work") /\ mu = CL /\ mu' = "none"
+  /\ changed => (CachedRollback /\ nchanges < MaxChanges)
+  /\ nchanges' = IF changed THEN nchanges + 1 ELSE nchanges
+  /\ Goto(CL, IF changed THEN "c_send" ELSE "c_pick")
+  /\ UNCHANGED <<mtx, cond, chans, bpv, chg, cached, nblocks, nvotes, ntxs, nreads>>
+CLSend ==          \* candidate repair: c.rollbackCh <- msg
+  /\ At(CL, "c_send") /\ Len(rbQ) < RbCap /\ rbQ' = Append(rbQ, CL) /\ Goto(CL, "c_wait")
+  /\ UNCHANGED <<locks, blockQ, epochQ, reply, rbReply, bpv, chg, cached, cnt>>
+CLRecv ==          \* candidate repair: <-msg.Reply
+  /\ At(CL, "c_wait") /\ rbReply[CL] /\ rbReply' = [rbReply EXCEPT ![CL] = FALSE] /\ Goto(CL, "c_pick")
+  /\ UNCHANGED <<locks, blockQ, rbQ, epochQ, reply, bpv, chg, cached, cnt>>
 
 (* ---- Submitters: Chain.ValidateTx (leaf sections, one step each) ------------------ *)
 SBegin(s) == /\ At(s, "idle") /\ ntxs < MaxTxs /\ ntxs' = ntxs + 1 /\ Goto(s, "s_have")
@@ -255,7 +272,7 @@ BPStep == \/ BPTakeBlock \/ BPTakeRb \/ BPSkip \/ (\E e \in BOOLEAN : BPSave(e))
           \/ BPApplyAcq \/ BPApplyRel \/ BPFailed \/ (\E e \in BOOLEAN : BPSubBlock(e))
           \/ BPBestChain \/ BPNoReorg \/ BPLastFinalized
           \/ BPCondAcq \/ BPCondRel \/ BPPoolSkip \/ BPPoolAcq \/ BPPoolRel \/ BPReplyBlock \/ BPReplyRb
-CLStep == CLTake \/ CLNone \/ CLCached \/ CLReadTree \/ CLAcq \/ CLRel
+CLStep == CLTake \/ CLNone \/ CLCached \/ CLReadTree \/ CLAcq \/ (\E c \in BOOLEAN : CLRel(c)) \/ CLSend \/ CLRecv
 
 AllCallsReturned ==
   /\ \A t \in Callers : pc[t] = "idle"
